@@ -418,3 +418,293 @@ def r5_alpha_count(ck, P):
 def _is_incdec(f, s, d):
     y = f.v(s.a[0])
     return y is not None and y.op in ('add', 'sub') and any(o[0] == 'c' and (int(o[1]) == d if y.op == 'add' else int(o[1]) == -d) for o in y.a)
+
+
+# ------------------------------------------------------------------------------------------- C20
+RELEASERS = {'free': 'free', 'pixman_image_unref': 'unref', 'pixman_region32_fini': 'region_fini', 'pixman_region_fini': 'region_fini'}
+REGION_INIT = {'pixman_region32_init', 'pixman_region32_copy', 'pixman_region32_init_rect', 'pixman_region32_init_rects', 'pixman_region32_init_with_extents'}
+
+
+def owned_fields(P):
+    """image-struct fields that receive an allocation, a counted reference or an initialised region anywhere in the library"""
+    if getattr(P, '_owned', None) is not None:
+        return P._owned
+    out = {}; notowned = set()
+    for f in P.functions():
+        for x in f.insts():
+            if x.op == 'store':
+                lf = image_field(P, f, f.path(x.a[1]))
+                if not lf:
+                    continue
+                kinds = set()
+                for r in common.roots(f, x.a[0]):
+                    if r[0] == 'null':
+                        continue
+                    if r[0] == 'call' and f.path(x.a[0])[0][0] != 'load' and r[1] == 'pixman_image_ref':
+                        kinds.add('unref')
+                    elif r[0] == 'call' and f.path(x.a[0])[0][0] != 'load' and returns_fresh(P, f, r):
+                        kinds.add('free')
+                    else:
+                        kinds.add(None)      # may hold a value the library does not own (caller's buffer)
+                if len(kinds) == 1 and None not in kinds:
+                    out.setdefault(lf, kinds.pop())
+                elif None in kinds and lf in out and ('field', lf) not in f.atoms(x.a[0]):
+                    notowned.add(lf)
+            elif x.op == 'call' and x.callee in REGION_INIT and x.a:
+                p = f.path(x.a[0])
+                lf = image_field(P, f, p)
+                if lf and p[0][0] != 'load':
+                    out[lf] = 'region_fini'
+    for lf in notowned:
+        out.pop(lf, None)
+    P._owned = out
+    return out
+
+
+def find_fini(P):
+    """role: the function that decrements image_common.ref_count"""
+    c = [f for f in P.functions() if any(_is_incdec(f, s, -1) for s in common.stores_field(f, 'image_common.ref_count'))]
+    if len(c) != 1:
+        raise AnalysisBroken('expected one function decrementing ref_count, found %s' % [g.name for g in c])
+    return c[0]
+
+
+def in_loop(f, b):
+    return b in f.reachable_blocks(b, ()) - {b} or any(b in f.reachable_blocks(s) for s in f.blocks[b].succ)
+
+
+def r20_1_fini(ck, P):
+    R = ck.rule('C20-R1', 'the finaliser releases every owned field exactly once, only when the count reached zero; destroy_func runs at most once and only there; unref frees iff fini said so', floor=8)
+    fini = find_fini(P); ck.saw(fini)
+    owned = owned_fields(P)
+    ck.note('owned fields: %s' % owned)
+    if len(owned) < 5:
+        ck.incomplete(R, 'owned-field set collapsed: %s' % sorted(owned))
+    # the zero test
+    zero_edges = set()
+    for b in fini.blocks:
+        t = b.term
+        if t.op == 'br' and t.a:
+            c = fini.v(t.a[0])
+            if c is not None and c.op == 'icmp' and ('field', 'image_common.ref_count') in fini.atoms(t.a[0]) and ('const', 0) in fini.atoms(t.a[0]):
+                zero_edges.add((t, t.d['succ'][0] if c.pred == 'eq' else t.d['succ'][1]))
+    if not zero_edges:
+        ck.violation(R, fini.name, 'zero test', 'the finaliser does not test ref_count == 0 before releasing', '%s:%d' % (fini.unit.name, fini.line)); return
+
+    def under_zero(x):
+        return bool(fini.control_conditions(x.bb.id) & zero_edges)
+
+    rel = defaultdict(list)
+    for c in fini.calls():
+        kind = RELEASERS.get(c.callee)
+        if not kind or not c.a:
+            continue
+        p = fini.path(c.a[0])
+        # free(load field), free(load field +- const), unref(load field), region_fini(&field)
+        fld = None
+        if p[0][0] == 'load':
+            fld = image_field(P, fini, p[0][1])
+        else:
+            fld = image_field(P, fini, p)
+        if fld:
+            rel[fld].append((c, kind))
+    for fld, kind in sorted(owned.items()):
+        rs = rel.get(fld, [])
+        if not rs:
+            ck.violation(R, fini.name, 'release of ' + fld, 'the finaliser never releases %s (leak when the last reference goes)' % fld, '%s:%d' % (fini.unit.name, fini.line)); continue
+        if len(rs) > 1:
+            ck.violation(R, fini.name, 'release of ' + fld, '%s is released %d times in the finaliser (double free)' % (fld, len(rs)), rs[1][0].loc()); continue
+        c, k = rs[0]
+        if k != kind:
+            ck.violation(R, fini.name, 'release of ' + fld, '%s is owned as %s but released with %s' % (fld, kind, c.callee), c.loc()); continue
+        if not under_zero(c):
+            ck.violation(R, fini.name, 'release of ' + fld, '%s is released while other references may remain (not under ref_count == 0)' % fld, c.loc()); continue
+        if in_loop(fini, c.bb.id):
+            ck.violation(R, fini.name, 'release of ' + fld, '%s is released inside a loop' % fld, c.loc()); continue
+        ck.ok(R, 'fini releases %s with %s once, under ref_count == 0' % (fld, c.callee))
+    for fld in rel:
+        if fld not in owned:
+            ck.violation(R, fini.name, 'release of ' + fld, 'the finaliser releases %s, which the library never owns' % fld, rel[fld][0][0].loc())
+    # destroy_func
+    dcalls = []
+    for f in P.functions():
+        for c in f.calls():
+            if c.callee is None and 'callee' in c.d:
+                y = f.v(c.d['callee'])
+                if y is not None and y.op == 'load' and f.last_field(f.path(y.a[0])) == 'image_common.destroy_func':
+                    dcalls.append((f, c))
+    if len(dcalls) == 1 and dcalls[0][0] is fini and under_zero(dcalls[0][1]) and not in_loop(fini, dcalls[0][1].bb.id):
+        ck.ok(R, 'destroy_func called once, in fini, under ref_count == 0')
+    else:
+        ck.violation(R, fini.name, 'destroy_func call', 'destroy_func is called %d times / outside the zero-count branch of the finaliser' % len(dcalls), dcalls[0][1].loc() if dcalls else None)
+    # unref frees iff fini returned TRUE; fini returns 1 exactly on the zero branch
+    for f in P.functions():
+        for c in f.calls(fini.name):
+            frees = [q for q in f.calls('free') if q.a and any(r == ('arg', 0) for r in common.roots(f, q.a[0]))]
+            if not frees:
+                continue
+            ck.saw(f)
+            for q in frees:
+                dep = False
+                for br, succ in f.control_conditions(q.bb.id):
+                    if br.op == 'br' and br.a:
+                        cc = f.v(br.a[0])
+                        if cc is not None and cc.op == 'icmp' and any(f.strip_casts(o) == ['v', c.i] for o in cc.a):
+                            if (cc.pred == 'ne') == (br.d['succ'][0] == succ):
+                                dep = True
+                if dep:
+                    ck.ok(R, '%s frees the image only when fini returned TRUE' % f.name)
+                else:
+                    ck.violation(R, f.name, 'free(image)', '%s frees the image without fini having reported the last reference' % f.name, q.loc())
+    r = fini.rets()[0]; y = fini.v(r.a[0])
+    if y is not None and y.op == 'phi':
+        for a, bb in zip(y.a, y.d['bb']):
+            uz = bool((fini.control_conditions(bb) | {(fini.blocks[bb].term, y.bb.id)}) & zero_edges)
+            if a[0] == 'c' and (a[1] != 0) != uz:
+                ck.violation(R, fini.name, 'return value', 'the finaliser returns %d on the %s path' % (a[1], 'zero-count' if uz else 'non-zero-count'), r.loc())
+        ck.ok(R, 'fini returns TRUE exactly on the zero-count branch')
+
+
+def r20_2_overwrite_releases(ck, P):
+    R = ck.rule('C20-R2', 'every store to an owned field outside constructors is dominated by a release or null test of the old value, or stores a value derived from the old one', floor=5)
+    owned = owned_fields(P)
+    for f in P.functions():
+        for x in f.insts():
+            fld = None; site = None
+            if x.op == 'store':
+                fld = image_field(P, f, f.path(x.a[1]))
+                if fld not in owned or owned[fld] == 'region_fini':
+                    continue
+                if is_constructor_store(P, f, x):
+                    continue
+                site = x
+            else:
+                continue
+            ck.saw(f)
+            base = f.path(x.a[1])
+            ok = None
+            # (a) value derived from the old one
+            if ('field', fld) in f.atoms(x.a[0]) and x.a[0][0] != 'n':
+                ok = 'derived from the old value'
+            if not ok:
+                # (b) every path from entry to the store passes a release of the old value or the null side of a null test of it
+                barrier_blocks = set(); barrier_edges = set()
+                for y in f.insts():
+                    if y.op == 'call' and y.callee in RELEASERS and y.a:
+                        p = f.path(y.a[0])
+                        if p[0][0] == 'load' and p[0][1] == base and not p[1]:
+                            barrier_blocks.add(y.bb.id)
+                    if y.op == 'br' and y.a:
+                        c = f.v(y.a[0])
+                        if c is not None and c.op == 'icmp' and c.pred in ('eq', 'ne') and any(o[0] == 'n' for o in c.a):
+                            other = [o for o in c.a if o[0] != 'n']
+                            z = f.v(other[0]) if other else None
+                            if z is not None and z.op == 'load' and f.path(z.a[0]) == base:
+                                barrier_edges.add((y.bb.id, y.d['succ'][0] if c.pred == 'eq' else y.d['succ'][1]))
+                seen = set(); work = [0]; reached = False
+                while work:
+                    b = work.pop()
+                    if b in seen:
+                        continue
+                    seen.add(b)
+                    if b == x.bb.id:
+                        reached = True; break
+                    if b in barrier_blocks:
+                        continue
+                    for sx in f.blocks[b].succ:
+                        if (b, sx) not in barrier_edges:
+                            work.append(sx)
+                if x.bb.id in barrier_blocks and any(y.op == 'call' and y.callee in RELEASERS and y.i < x.i for y in x.bb.insts):
+                    reached = False
+                if not reached and (barrier_blocks or barrier_edges):
+                    ok = 'old value released or null on every path'
+            if ok:
+                ck.ok(R, '%s: store to %s (%s)' % (f.name, fld, ok))
+            else:
+                ck.violation(R, f.name, 'store to owned field ' + fld, '%s overwrites %s without releasing the previous value (leak)' % (f.name, fld), x.loc())
+
+
+def r20_3_refcount_writers(ck, P):
+    R = ck.rule('C20-R3', 'ref_count is written only as =1 on a fresh object, +1 by the ref function and -1 by the finaliser; an image is freed only on the finaliser\'s word or on a constructor failure path', floor=4)
+    fini = find_fini(P)
+    for f in P.functions():
+        for s in common.stores_field(f, 'image_common.ref_count'):
+            ck.saw(f)
+            if s.a[0][0] == 'c' and s.a[0][1] == 1 and is_constructor_store(P, f, s):
+                ck.ok(R, '%s: ref_count = 1 on a fresh object' % f.name)
+            elif _is_incdec(f, s, 1) and f.exported and f.rets() and f.rets()[0].a and f.rets()[0].a[0] == ['a', 0]:
+                ck.ok(R, '%s: ref_count++ and returns the image' % f.name)
+            elif _is_incdec(f, s, -1) and f is fini:
+                ck.ok(R, '%s: ref_count--' % f.name)
+            else:
+                ck.violation(R, f.name, 'store to ref_count', '%s writes ref_count outside the init/ref/fini protocol' % f.name, s.loc())
+        for q in f.calls('free'):
+            if not q.a:
+                continue
+            y = f.v(q.a[0])
+            t = None
+            o = f.strip_casts(q.a[0])
+            src = f.v(o)
+            ty = (src.ty if src is not None else (f.params[o[1]][1] if o[0] == 'a' else ''))
+            if 'pixman_image' not in ty:
+                continue
+            ck.saw(f)
+            rs = common.roots(f, q.a[0])
+            if all((r[0] == 'call' and returns_fresh(P, f, r)) or r[0] == 'null' for r in rs):
+                ck.ok(R, '%s: frees an image it has just allocated (constructor failure path)' % f.name)
+            elif any(c.callee == fini.name for c in f.calls()):
+                ck.ok(R, '%s: frees the image after the finaliser (checked by C20-R1)' % f.name)
+            else:
+                ck.violation(R, f.name, 'free(image)', '%s frees an image object without going through the finaliser' % f.name, q.loc())
+
+
+def r20_4_alpha_map_exchange(ck, P):
+    R = ck.rule('C20-R4', 'installing a counted reference to an object of the same type is control-dependent on the chain refusals and on owner != referent', floor=2)
+    for f in P.functions():
+        for s in common.stores_field(f, 'image_common.alpha_map'):
+            y = f.v(f.strip_casts(s.a[0]))
+            if y is None or y.op != 'call' or y.callee != 'pixman_image_ref':
+                continue
+            ck.saw(f)
+            owner = common.roots(f, s.a[1]); ref = common.roots(f, y.a[0])
+            conds = f.control_conditions(s.bb.id)
+            at_all = set()
+            for br, succ in conds:
+                if br.op == 'br' and br.a:
+                    at_all |= f.atoms(br.a[0])
+            # chain refusals
+            if ('field', 'image_common.alpha_count') in at_all:
+                ck.ok(R, '%s: refuses an owner that is itself in use as an alpha map (alpha_count)' % f.name)
+            else:
+                ck.violation(R, f.name, 'alpha_count refusal', '%s can give an alpha map to an image that is itself used as an alpha map (chain)' % f.name, s.loc())
+            chain2 = False
+            for br, succ in conds:
+                if br.op == 'br' and br.a:
+                    c = f.v(br.a[0])
+                    if c is not None and c.op == 'icmp':
+                        for o in c.a:
+                            z = f.v(o)
+                            if z is not None and z.op == 'load':
+                                p = f.path(z.a[0])
+                                if f.fields_of(p) == ['image_common.alpha_map'] and f.root(p) in ref:
+                                    chain2 = True
+            if chain2:
+                ck.ok(R, '%s: refuses a map that has an alpha map itself' % f.name)
+            else:
+                ck.violation(R, f.name, 'map-has-map refusal', '%s accepts as alpha map an image that has an alpha map itself (chain)' % f.name, s.loc())
+            # owner != referent
+            selfguard = False
+            for br, succ in conds:
+                if br.op == 'br' and br.a:
+                    c = f.v(br.a[0])
+                    if c is not None and c.op == 'icmp' and c.pred in ('eq', 'ne'):
+                        ra = common.roots(f, c.a[0]); rb = common.roots(f, c.a[1])
+                        pa, pb = f.path(f.strip_casts(c.a[0])), f.path(f.strip_casts(c.a[1]))
+                        direct = pa[0][0] == 'arg' and pb[0][0] == 'arg' and not pa[1] and not pb[1]
+                        if direct and ((ra <= owner and rb <= ref) or (ra <= ref and rb <= owner)):
+                            if (c.pred == 'ne') == (br.d['succ'][0] == succ):
+                                selfguard = True
+            if selfguard:
+                ck.ok(R, '%s: refuses owner == referent' % f.name)
+            else:
+                ck.violation(R, f.name, 'self reference', '%s accepts an image as its own alpha map: the reference count can never reach zero (leak, destroy callback never runs) and validate recurses forever' % f.name, s.loc())
